@@ -51,7 +51,12 @@ def program_pool(rng):
     # recorders whose first tick comes early / late (what a later run would find in a buffer left behind by an earlier one)
     s5 = ";".join("%d:%d" % (t, rng.choice([1, 2, 3])) for t in sorted(rng.sample(range(rng.choice([1, 3, 5]), 8), 2)))
     p5 = ["scn pf", "opt start=1 end=9", "graph root", "n 1 src script=" + s5, "n 2 acc in=1", "n 3 grec key=r in=2", "n 4 rec in=2", "endgraph"]
-    return ["\n".join(p) for p in (p0, p1, p2, p3, p4, p5)]
+    # one producer fanned out to many rank-independent consumers that write the same global-state key: whichever runs last
+    # wins, so the order among them is observable - it must not depend on what was built before in the process
+    fan = ["n %d add k=%d in=1" % (10 + i, i) for i in range(1, 9)] + ["n %d gset key=kz in=%d" % (30 + i, 10 + i) for i in range(1, 9)]
+    p6 = ["scn pg", "opt start=1 end=8", "graph root", "n 1 src script=" + s1, "n 2 timer p=1 cnt=7"] + fan + \
+         ["n 50 gprobe key=kz in=2", "n 51 rec in=50", "endgraph"]
+    return ["\n".join(p) for p in (p0, p1, p2, p3, p4, p5, p6)]
 
 
 def iso_text(name, progs, tokens):
@@ -121,7 +126,7 @@ def main():
         return ["%s%d" % (op, arg) if op not in ("F", "G") else op for op, arg in h]
     for k, h in enumerate(hists):
         pool = pools[k % len(pools)]
-        progs = (pool[:2], [pool[2], pool[0]], [pool[3], pool[4]], [pool[4], pool[3]], [pool[3], pool[1]])[k % 5]
+        progs = (pool[:2], [pool[2], pool[0]], [pool[3], pool[4]], [pool[4], pool[3]], [pool[3], pool[1]], [pool[6], pool[1]], [pool[0], pool[6]])[k % 7]
         scns.append(iso_text("h%d" % k, progs, toks(h)))
         metas.append(progs)
     for k, h in enumerate(chists):
@@ -148,11 +153,24 @@ def main():
             tokens += ["B%d" % i, "X%d" % i, "F", "W%d" % i]
         scns.append(iso_text("ctx%d" % k, progs, tokens))
         metas.append(progs)
+    # another thread holds an open GlobalContext (it wired and ran a program inside it and copied the result back) while this
+    # thread builds and runs graphs outside any context: they must behave as if run alone
+    for k in range(20 if quick else 200):
+        pool = pools[k % len(pools)]
+        writer = pool[rng.choice([0, 1, 2])]
+        readers = [rng.choice(pool[:3]) for _ in range(rng.randint(1, 2))]
+        progs = [writer] + readers
+        tokens = ["H0"]
+        for i in range(1, len(progs)):
+            tokens += ["B%d" % i, "X%d" % (i - 1)]
+        tokens += ["F"]
+        scns.append(iso_text("held%d" % k, progs, tokens))
+        metas.append(progs)
     # first use: many executors created at the same instant in a fresh process (lazily initialised process-wide state)
     first_use = []
     for k in range(40 if quick else 400):
         pool = pools[k % len(pools)]
-        progs = [pool[k % 6]]
+        progs = [pool[k % 7]]
         first_use.append(len(scns))
         scns.append(iso_text("first%d" % k, progs, ["B0"] + ["Y0"] * 8 + ["F"]))
         metas.append(progs)
